@@ -78,7 +78,7 @@ def run_generated(ctx, binary, n_programs, size, fault=False):
 def run_catalogue(ctx, binary):
     base = ctx.mktemp()
     ents = c02_catalogue.entries()
-    results = programs.pmap(lambda e: cc.run_src(binary, e["src"], base, timeout=60), ents)
+    results = programs.pmap(lambda e: cc.run_src(binary, e["src"], base, extra_files=e.get("files") or None, timeout=60), ents)
     verdicts = {}
     changed = []
     nobs = 0
@@ -98,8 +98,8 @@ def run_catalogue(ctx, binary):
         nobs += n
         for cls, what in finds:
             ctx.report(e.get("cls") or "catalogue:" + e["name"], "boundary case `%s`: %s" % (e["name"], what),
-                       {"entry": e["name"], "program": e["src"], "observed": res.brief(),
-                        "how": "write `program` to m.ms in an empty directory; MSCRIPT_VERIF_TYPED_PRINT=1 mscript run m.ms -q"})
+                       {"entry": e["name"], "program": e["src"], "other_files": e.get("files") or {}, "observed": res.brief(),
+                        "how": "write `program` to m.ms (and `other_files` next to it) in an empty directory; MSCRIPT_VERIF_TYPED_PRINT=1 mscript run m.ms -q"})
     return {"entries": len(ents), "accepted": sum(1 for v in verdicts.values() if v == "accept"),
             "rejected": sum(1 for v in verdicts.values() if v == "reject"), "observations": nobs,
             "verdict_differs_from_expectation": changed}
